@@ -1,22 +1,27 @@
 /-
-Helper lemmas for C11 (part 4): at-most-once.  A finished query's result has no duplicates when the keys of
-its two snapshots are disjoint (for count queries: exactly then); the snapshots are disjoint when no segment
-was in its hand-over window at the first snapshot and no rotation step ran between the two snapshots.
+Helper lemmas for C11 (part 4): at-most-once.  With the request list de-duplicated by segment key (the code as
+it is) a finished query's result never has duplicates.  Without it (the code before the repair, `Cfg.of false`)
+it has none when the keys of its two snapshots are disjoint (for count queries: exactly then); the snapshots are
+disjoint when no segment was in its hand-over window at the first snapshot and no rotation step ran between
+the two snapshots.
 -/
 import SigModel.Lemmas.C11c
 set_option linter.unusedSimpArgs false
 namespace SigModel.Lemmas.C11
 open SigModel.Conc
 
+variable {d : Bool}
+
 /-- no segment key is in both snapshots -/
 def Disj (q : Query) : Prop := ∀ r ∈ q.snapU, ∀ r' ∈ q.snapR, r.1 ≠ r'.1
 
-theorem nodup_of_disj (s : St) (j : Nat) (hq : QInv s j) (hf : (s.query j).finished = true)
+theorem nodup_of_disj (s : St) (j : Nat) (hq : QInv false s j) (hf : (s.query j).finished = true)
     (hd : Disj (s.query j)) : (s.query j).result.Nodup := by
   cases hk : (s.query j).kind with
   | rrc => exact hq.resRrc hf hk
   | stats =>
     rw [hq.resStats hf hk]
+    simp only [qsrsOf, Bool.false_eq_true, if_false]
     apply nodup_flatMap_blocksOf
     rw [List.map_append, List.nodup_append]
     refine ⟨hq.keysU, hq.keysR, ?_⟩
@@ -26,9 +31,11 @@ theorem nodup_of_disj (s : St) (j : Nat) (hq : QInv s j) (hf : (s.query j).finis
     obtain ⟨r', hr', h2⟩ := hb
     exact hd r hr r' hr' (by rw [h1, h2, hab])
 
-theorem not_nodup_of_overlap (s : St) (j : Nat) (hq : QInv s j) (hf : (s.query j).finished = true)
+theorem not_nodup_of_overlap (s : St) (j : Nat) (hq : QInv false s j) (hf : (s.query j).finished = true)
     (hk : (s.query j).kind = .stats) (hd : ¬ Disj (s.query j)) : ¬ (s.query j).result.Nodup := by
-  rw [hq.resStats hf hk, List.flatMap_append, List.nodup_append]
+  rw [hq.resStats hf hk]
+  simp only [qsrsOf, Bool.false_eq_true, if_false]
+  rw [List.flatMap_append, List.nodup_append]
   intro ⟨_, _, h3⟩
   apply hd
   intro r hr r' hr' hg
@@ -38,12 +45,22 @@ theorem not_nodup_of_overlap (s : St) (j : Nat) (hq : QInv s j) (hf : (s.query j
   · rw [List.mem_flatMap]; exact ⟨r, hr, (mem_blocksOf _ _ _ _).mpr ⟨rfl, by omega⟩⟩
   · rw [List.mem_flatMap]; exact ⟨r', hr', (mem_blocksOf _ _ _ _).mpr ⟨hg, by omega⟩⟩
 
+/-- with the request list de-duplicated by segment key, every finished query reads every block at most once -/
+theorem nodup_of_dedup (s : St) (j : Nat) (hq : QInv true s j) (hf : (s.query j).finished = true) :
+    (s.query j).result.Nodup := by
+  cases hk : (s.query j).kind with
+  | rrc => exact hq.resRrc hf hk
+  | stats =>
+    rw [hq.resStats hf hk]
+    simp only [qsrsOf, if_true]
+    exact nodup_flatMap_blocksOf _ (nodup_dedupKey_keys _)
+
 /-- once both snapshots are taken they do not change any more -/
 theorem snaps_frozen (s : St) (l : Label) (j : Nat) (h1 : (s.query j).started = true)
     (h2 : (s.query j).todo = []) :
-    ((step Cfg.real s l).query j).started = true ∧ ((step Cfg.real s l).query j).todo = [] ∧
-    ((step Cfg.real s l).query j).snapU = (s.query j).snapU ∧
-    ((step Cfg.real s l).query j).snapR = (s.query j).snapR := by
+    ((step (Cfg.of d) s l).query j).started = true ∧ ((step (Cfg.of d) s l).query j).todo = [] ∧
+    ((step (Cfg.of d) s l).query j).snapU = (s.query j).snapU ∧
+    ((step (Cfg.of d) s l).query j).snapR = (s.query j).snapR := by
   by_cases h : ∃ k, l = .q j k
   · obtain ⟨k, hk⟩ := h
     subst hk
@@ -55,7 +72,7 @@ theorem snaps_frozen (s : St) (l : Label) (j : Nat) (h1 : (s.query j).started = 
     exact ⟨h1, h2, rfl, rfl⟩
 
 theorem frozen_run (ls : List Label) (s : St) (j : Nat) (h1 : (s.query j).started = true)
-    (h2 : (s.query j).todo = []) (hd : Disj (s.query j)) : Disj ((run Cfg.real s ls).query j) := by
+    (h2 : (s.query j).todo = []) (hd : Disj (s.query j)) : Disj ((run (Cfg.of d) s ls).query j) := by
   induction ls generalizing s with
   | nil => exact hd
   | cons l ls ih =>
@@ -69,13 +86,13 @@ theorem frozen_run (ls : List Label) (s : St) (j : Nat) (h1 : (s.query j).starte
 /-- labels that are neither rotation steps nor steps of query `j` change neither the rotated map nor query `j` -/
 theorem quiet_run (m : List Label) (s : St) (j : Nat)
     (hm : ∀ l ∈ m, (∀ i, l ≠ .rot i) ∧ (∀ b, l ≠ .q j b)) :
-    (run Cfg.real s m).rot = s.rot ∧ (run Cfg.real s m).query j = s.query j := by
+    (run (Cfg.of d) s m).rot = s.rot ∧ (run (Cfg.of d) s m).query j = s.query j := by
   induction m generalizing s with
   | nil => exact ⟨rfl, rfl⟩
   | cons l m ih =>
     rw [run_cons]
     have hl := hm l (by simp)
-    obtain ⟨r1, r2⟩ := ih (step Cfg.real s l) (fun l' hl' => hm l' (by simp [hl']))
+    obtain ⟨r1, r2⟩ := ih (step (Cfg.of d) s l) (fun l' hl' => hm l' (by simp [hl']))
     rw [r1, r2, query_frame s l j hl.2]
     refine ⟨?_, rfl⟩
     cases l with
@@ -84,43 +101,43 @@ theorem quiet_run (m : List Label) (s : St) (j : Nat)
       cases (s.store i).todo <;> simp
     | rot i => exact absurd rfl (hl.1 i)
     | q j' k =>
-      obtain ⟨qf, hq⟩ := qStep_frame Cfg.real s j' k
+      obtain ⟨qf, hq⟩ := qStep_frame (Cfg.of d) s j' k
       simp [step, hq]
 
 theorem quiet_nodup (p m rest : List Label) (j : Nat) (k k' : Bool)
-    (hns : ((run Cfg.real init p).query j).started = false)
-    (hw : ∀ g ∈ (run Cfg.real init p).segs, (run Cfg.real init p).unrot g ≠ 0 → (run Cfg.real init p).rot g = 0)
+    (hns : ((run (Cfg.of false) init p).query j).started = false)
+    (hw : ∀ g ∈ (run (Cfg.of false) init p).segs, (run (Cfg.of false) init p).unrot g ≠ 0 → (run (Cfg.of false) init p).rot g = 0)
     (hm : ∀ l ∈ m, (∀ i, l ≠ .rot i) ∧ (∀ b, l ≠ .q j b))
-    (hf : ((run Cfg.real init (p ++ .q j k :: (m ++ .q j k' :: rest))).query j).finished = true) :
-    ((run Cfg.real init (p ++ .q j k :: (m ++ .q j k' :: rest))).query j).result.Nodup := by
-  have hQ := qinv_run (p ++ .q j k :: (m ++ .q j k' :: rest)) j
+    (hf : ((run (Cfg.of false) init (p ++ .q j k :: (m ++ .q j k' :: rest))).query j).finished = true) :
+    ((run (Cfg.of false) init (p ++ .q j k :: (m ++ .q j k' :: rest))).query j).result.Nodup := by
+  have hQ := qinv_run (d := false) (p ++ .q j k :: (m ++ .q j k' :: rest)) j
   apply nodup_of_disj _ j hQ hf
   rw [run_append, run_cons, run_append, run_cons]
   -- names
-  generalize hs0 : run Cfg.real init p = s0 at hns hw
-  have hq0 : QInv s0 j := by rw [← hs0]; exact qinv_run p j
+  generalize hs0 : run (Cfg.of false) init p = s0 at hns hw
+  have hq0 : QInv false s0 j := by rw [← hs0]; exact qinv_run p j
   have hnf : (s0.query j).finished = false := by
     cases hfin : (s0.query j).finished with
     | false => rfl
     | true => have := (hq0.finOk hfin).1; rw [hns] at this; exact absurd this (by simp)
   -- first step of the query
-  have e1 : (step Cfg.real s0 (.q j k)).rot = s0.rot := by
-    obtain ⟨qf, hq⟩ := qStep_frame Cfg.real s0 j k
+  have e1 : (step (Cfg.of false) s0 (.q j k)).rot = s0.rot := by
+    obtain ⟨qf, hq⟩ := qStep_frame (Cfg.of false) s0 j k
     simp [step, hq]
-  have e1q : ((step Cfg.real s0 (.q j k)).query j).started = true ∧
-      ((step Cfg.real s0 (.q j k)).query j).todo = [.snapR] ∧
-      ((step Cfg.real s0 (.q j k)).query j).finished = false ∧
-      ((step Cfg.real s0 (.q j k)).query j).snapU = snapOf s0 s0.unrot := by
-    simp [step, qStep, hns, hnf, Cfg.real, applySnap, upd]
-  generalize hs1 : step Cfg.real s0 (.q j k) = s1 at e1 e1q
+  have e1q : ((step (Cfg.of false) s0 (.q j k)).query j).started = true ∧
+      ((step (Cfg.of false) s0 (.q j k)).query j).todo = [.snapR] ∧
+      ((step (Cfg.of false) s0 (.q j k)).query j).finished = false ∧
+      ((step (Cfg.of false) s0 (.q j k)).query j).snapU = snapOf s0 s0.unrot := by
+    simp [step, qStep, hns, hnf, Cfg.of, applySnap, upd]
+  generalize hs1 : step (Cfg.of false) s0 (.q j k) = s1 at e1 e1q
   -- the quiet stretch
   obtain ⟨e2, e2q⟩ := quiet_run m s1 j hm
-  generalize hs2 : run Cfg.real s1 m = s2 at e2 e2q
+  generalize hs2 : run (Cfg.of false) s1 m = s2 at e2 e2q
   -- second step of the query
-  have e3 : ((step Cfg.real s2 (.q j k')).query j).started = true ∧
-      ((step Cfg.real s2 (.q j k')).query j).todo = [] ∧
-      ((step Cfg.real s2 (.q j k')).query j).snapU = snapOf s0 s0.unrot ∧
-      ((step Cfg.real s2 (.q j k')).query j).snapR = snapOf s2 s2.rot := by
+  have e3 : ((step (Cfg.of false) s2 (.q j k')).query j).started = true ∧
+      ((step (Cfg.of false) s2 (.q j k')).query j).todo = [] ∧
+      ((step (Cfg.of false) s2 (.q j k')).query j).snapU = snapOf s0 s0.unrot ∧
+      ((step (Cfg.of false) s2 (.q j k')).query j).snapR = snapOf s2 s2.rot := by
     simp [step, qStep, e2q, e1q.1, e1q.2.1, e1q.2.2.1, e1q.2.2.2, applySnap, upd]
   apply frozen_run rest _ j e3.1 e3.2.1
   intro r hr r' hr' hg
